@@ -26,8 +26,8 @@ RULE = (
     "valid write."
 )
 ASSUMPTIONS = ["one session is open at a time", "overlay build against system HDF5 1.10.8"]
-FLOORS = {"nontrivial": 0.3}
-MISMATCH = ["kind", "size", "order", "S", "F", "n", "d", "cplx", "nsub", "cont"]
+FLOORS = {"nontrivial": 0.25}
+MISMATCH = ["kind", "size", "order", "S", "F", "n", "d", "cplx", "nsub", "cont", "nd-equiv"]
 
 
 def budget(tier):
@@ -83,7 +83,20 @@ def histories(draw, tier):
                 kind = "open"
             if kind == "open":
                 d = draw(st.integers(0, ndirs - 1))
-                mode = draw(st.sampled_from(["later", "later", "earlier", "inside", "inside"])) if taken else "first"
+                mode = draw(st.sampled_from(["later", "later", "earlier", "inside", "inside", "subdir-before", "subdir-before", "subdir-before"])) if taken else "first"
+                cross = None
+                if mode == "subdir-before":
+                    # start in the last file period(s) of the subdirectory preceding one that an earlier session created,
+                    # so that this session ENTERS an existing subdirectory (at a free or at a finalized file period)
+                    subs = sorted({(ms // 1000) // cfg["S"] * cfg["S"] for ms in taken})
+                    free_first = [x for x in subs if x * 1000 not in taken]
+                    D = draw(st.sampled_from(free_first if free_first and draw(st.integers(0, 3)) else subs))
+                    ms0 = D * 1000 - cfg["F"] * draw(st.integers(1, 2))
+                    if ms0 < 0 or ms0 in taken or (ms0 // 1000) // cfg["S"] * cfg["S"] == D:
+                        mode = "earlier"
+                    else:
+                        start = rfmodel.first_sample(cfg, ms0) + draw(st.sampled_from([0, 1, spf // 2]))
+                        cross = D
                 if mode == "first":
                     start = base
                 elif mode == "later":
@@ -91,11 +104,11 @@ def histories(draw, tier):
                 elif mode == "earlier":
                     lo = min(taken)
                     start = max(0, rfmodel.first_sample(cfg, lo - cfg["F"] * draw(st.integers(2, 6))) + draw(st.sampled_from([0, 1, 3])))
-                else:
+                elif mode == "inside":
                     stamp = draw(st.sampled_from(sorted(taken)))
                     lo_, hi_ = rfmodel.window(cfg, stamp)
                     start = draw(st.integers(lo_, hi_ - 1))
-                sess = {"dir": d, "start": start, "next": 0, "cur": None, "mode": mode}
+                sess = {"dir": d, "start": start, "next": 0, "cur": None, "mode": mode, "cross": cross}
                 nsess += 1
                 steps.append({"s": "open", "dir": d, "start": start, "salt": 1000 + nsess, "uuid": "sess%d" % nsess, "mode": mode})
             elif kind == "mismatch":
@@ -145,6 +158,14 @@ def histories(draw, tier):
                 # multi-file call beginning before the taken period
                 b = max(sess["next"], tgt - draw(st.integers(1, 2 * spf)))
                 op = {"op": "w", "idx": b, "len": tgt - b + draw(st.integers(1, spf)), "cid": cid}
+        elif sess.get("cross") is not None and draw(st.integers(0, 9)) < 8:
+            # one contiguous write from the current position over the subdirectory boundary
+            tgt_end = rfmodel.first_sample(cfg, sess["cross"] * 1000) + draw(st.sampled_from([1, max(1, spf // 2), spf, spf + 1]))
+            ln = tgt_end - (sess["start"] + sess["next"])
+            sess["cross"] = None
+            if ln <= 0 or ln > 6 * spf + 8:
+                continue
+            op = {"op": "w", "idx": sess["next"], "len": ln, "cid": cid, "cross": 1}
         else:
             op, _ = S.draw_op(draw, cfg, sess["next"], allow_blocks=not cfg["cont"], max_files=3)
             op["cid"] = cid
@@ -192,6 +213,26 @@ def strategy(tier):
     return histories(tier)
 
 
+# ------------------------------------------------------------------ reuse by other checks (their "second stage")
+STAGE2_TEXT = ("multi-session histories of checks/c11.py (restart later / earlier / inside recorded periods, conflicting "
+               "writes, 1-3 top-level directories) judged only with this property's own clauses")
+
+
+def session_strategy(tier):
+    return histories(tier).map(lambda h: dict(h, kind="sessions"))
+
+
+def run_sessions(case, keep, on_tree=None):
+    res = run_case(case, keep=keep, on_tree=on_tree)
+    res.cls("sessions")
+    return res
+
+
+def session_shrink(case):
+    for c in shrink_candidates(case):
+        yield dict(c, kind="sessions")
+
+
 def mismatched(cfg, param):
     c = dict(cfg)
     if param == "kind":
@@ -222,6 +263,13 @@ def mismatched(cfg, param):
         c["nsub"] = cfg["nsub"] + 1
     elif param == "cont":
         c["cont"] = 1 - cfg["cont"]
+    elif param == "nd-equiv":
+        # the same rate written as a different fraction: numerator and denominator both differ from the stored ones
+        k = 2 if cfg["n"] * 2 < 2 ** 32 else None
+        if k is None:
+            c["n"] = cfg["n"] + 1
+        else:
+            c["n"], c["d"] = cfg["n"] * k, cfg["d"] * k
     return c
 
 
@@ -235,7 +283,13 @@ def final_hashes(tops):
     return out
 
 
-def run_case(case):
+class _Stop(Exception):
+    """The history cannot be judged any further (the state after a wrongly accepted / refused call is undefined)."""
+
+
+def run_case(case, keep=None, on_tree=None):
+    """Run one session history.  ``keep``: tuple of signature prefixes to report (other checks reuse these histories
+    for their own clauses - see sessions_for()); ``on_tree(tops, cfg0, fail)`` is called on the final trees."""
     res = Result()
     cfg0 = case["cfg"]
     nb = rfmodel.sample_nbytes(cfg0)
@@ -249,7 +303,7 @@ def run_case(case):
     definite = {}  # abs index -> bytes
     maybe = {}
     file_owner_windows = []  # windows (lo,hi) of files that exist (for continuous fill)
-    restart_inside = any(s["s"] == "open" and s.get("mode") in ("inside", "earlier") for s in case["steps"])
+    restart_inside = any(s["s"] == "open" and s.get("mode") in ("inside", "earlier", "subdir-before") for s in case["steps"])
     refusal_then_ok = False
     had_refusal = False
     with rfharness.scratch("c11") as base:
@@ -261,92 +315,122 @@ def run_case(case):
         hashes = {}
         last_written = None
         try:
-            for si, st_ in enumerate(case["steps"]):
-                res.evaluations += 1
-                kind = st_["s"]
-                if kind == "open":
-                    cfg = dict(cfg0, start=st_["start"], salt=st_["salt"], uuid=st_["uuid"])
+          try:
+              for si, st_ in enumerate(case["steps"]):
+                  res.evaluations += 1
+                  kind = st_["s"]
+                  if kind == "open":
+                      cfg = dict(cfg0, start=st_["start"], salt=st_["salt"], uuid=st_["uuid"])
+                      try:
+                          with rfharness.quiet_fds():
+                              w = rfharness.open_py_writer(cfg, os.path.join(tops[st_["dir"]], "ch0"))
+                      except Exception as e:
+                          fail("open-refused", "step %d: session with identical parameters refused: %s" % (si, e))
+                          raise _Stop()
+                  elif kind == "close":
+                      with rfharness.quiet_fds():
+                          w.close()
+                      w = None
+                      last_written = None
+                  elif kind == "mismatch":
+                      chd = os.path.join(tops[st_["dir"]], "ch0")
+                      before = treeutil.snapshot(chd, mtime=True)
+                      bad = mismatched(dict(cfg0, start=cfg0["start"], salt=1, uuid="sessx"), st_["param"])
+                      try:
+                          with rfharness.quiet_fds():
+                              w2 = rfharness.open_py_writer(bad, chd)
+                          if st_["param"] == "nd-equiv":
+                              # (only reached when the session was wrongly accepted) let it record one file in a free later
+                              # period, so that checks inspecting the files see what such a session leaves behind
+                              stamps = [int(fn[3:-3].replace(".", "")) for t in tops for _, _, fns in os.walk(t) for fn in fns
+                                        if fn.startswith("rf@") and fn.endswith(".h5")]
+                              if stamps:
+                                  k0 = rfmodel.first_sample(cfg0, max(stamps) + 2 * cfg0["F"])
+                                  if k0 >= bad["start"]:
+                                      rfharness.py_issue(w2, bad, {"op": "w", "idx": k0 - bad["start"], "len": 3}, 777)
+                          with rfharness.quiet_fds():
+                              w2.close()
+                          fail("mismatch-accepted:" + st_["param"], "step %d: writer with different %s was accepted" % (si, st_["param"]))
+                      except Exception:
+                          pass
+                      after = treeutil.snapshot(chd, mtime=True)
+                      if after != before:
+                          fail("mismatch-changed-directory:" + st_["param"], "step %d: %s" % (si, treeutil.diff(before, after)))
+                  elif kind == "write":
+                      op = st_["op"]
+                      r = rfharness.py_issue(w, cfg, op, op["cid"])
+                      raw = rfmodel.call_bytes(cfg, op["cid"], op["len"])
+                      runs = []
+                      if op["op"] == "w":
+                          runs.append((cfg["start"] + op["idx"], op["len"], 0))
+                      else:
+                          for i, g in enumerate(op["g"]):
+                              ln = (op["d"][i + 1] if i + 1 < len(op["g"]) else op["len"]) - op["d"][i]
+                              runs.append((cfg["start"] + g, ln, op["d"][i]))
+                      if st_["expect"] == "ok":
+                          if r[0] != "ok":
+                              sig = "later-write-refused-after-refusal" if had_refusal else "valid-write-refused"
+                              fail(sig, "step %d %r: %s" % (si, {k: op[k] for k in ("op", "idx", "len") if k in op}, r[1]))
+                              raise _Stop()
+                          if had_refusal:
+                              refusal_then_ok = True
+                          for s, ln, off in runs:
+                              for i in range(ln):
+                                  definite[s + i] = raw[(off + i) * nb:(off + i + 1) * nb]
+                              last_written = s + ln - 1
+                              file_owner_windows.extend(rfmodel.window(cfg, ms) for ms in stamps_of(cfg, cfg["start"], op))
+                      else:
+                          had_refusal = True
+                          if r[0] == "ok":
+                              fail("conflicting-write-accepted", "step %d %r returned %r although a finalized file of an earlier session covers it" % (
+                                  si, {k: op[k] for k in ("op", "idx", "len") if k in op}, r[1]))
+                              raise _Stop()
+                          s, ln, off = runs[0]
+                          last_written = None  # a refused call finalizes the file that was open
+                          for i in range(min(st_.get("prefix", 0), ln)):
+                              maybe[s + i] = raw[(off + i) * nb:(off + i + 1) * nb]
+                          if st_.get("prefix", 0):
+                              file_owner_windows.extend(rfmodel.window(cfg, ms) for ms in stamps_of(cfg, cfg["start"], dict(op, len=st_["prefix"])))
+                  elif kind == "read":
+                      # samples of the file the open session is still writing sit in a tmp. file (not visible yet)
+                      open_win = None
+                      if w is not None and last_written is not None:
+                          open_win = rfmodel.window(cfg0, rfmodel.file_ms(cfg0, last_written))
+                      _read_check(cfg0, tops, definite, maybe, file_owner_windows, fail, si, open_win)
+                  # finalized files never change
+                  now = final_hashes(tops)
+                  for p, h in hashes.items():
+                      if p not in now:
+                          fail("finalized-file-disappeared", "step %d %s: %s" % (si, kind, os.path.relpath(p, base)))
+                      elif now[p] != h:
+                          fail("finalized-file-changed", "step %d %s: %s" % (si, kind, os.path.relpath(p, base)))
+                  hashes.update({p: h for p, h in now.items() if p not in hashes})
+                  if res.failures:
+                      raise _Stop()
+          except _Stop:
+            # close the session, then look once more at what the earlier sessions had published
+            if w is not None:
+                with rfharness.quiet_fds():
                     try:
-                        with rfharness.quiet_fds():
-                            w = rfharness.open_py_writer(cfg, os.path.join(tops[st_["dir"]], "ch0"))
-                    except Exception as e:
-                        fail("open-refused", "step %d: session with identical parameters refused: %s" % (si, e))
-                        return res
-                elif kind == "close":
-                    with rfharness.quiet_fds():
                         w.close()
-                    w = None
-                    last_written = None
-                elif kind == "mismatch":
-                    chd = os.path.join(tops[st_["dir"]], "ch0")
-                    before = treeutil.snapshot(chd, mtime=True)
-                    bad = mismatched(dict(cfg0, start=cfg0["start"], salt=1, uuid="x"), st_["param"])
-                    try:
-                        with rfharness.quiet_fds():
-                            w2 = rfharness.open_py_writer(bad, chd)
-                        with rfharness.quiet_fds():
-                            w2.close()
-                        fail("mismatch-accepted:" + st_["param"], "step %d: writer with different %s was accepted" % (si, st_["param"]))
                     except Exception:
                         pass
-                    after = treeutil.snapshot(chd, mtime=True)
-                    if after != before:
-                        fail("mismatch-changed-directory:" + st_["param"], "step %d: %s" % (si, treeutil.diff(before, after)))
-                elif kind == "write":
-                    op = st_["op"]
-                    r = rfharness.py_issue(w, cfg, op, op["cid"])
-                    raw = rfmodel.call_bytes(cfg, op["cid"], op["len"])
-                    runs = []
-                    if op["op"] == "w":
-                        runs.append((cfg["start"] + op["idx"], op["len"], 0))
-                    else:
-                        for i, g in enumerate(op["g"]):
-                            ln = (op["d"][i + 1] if i + 1 < len(op["g"]) else op["len"]) - op["d"][i]
-                            runs.append((cfg["start"] + g, ln, op["d"][i]))
-                    if st_["expect"] == "ok":
-                        if r[0] != "ok":
-                            sig = "later-write-refused-after-refusal" if had_refusal else "valid-write-refused"
-                            fail(sig, "step %d %r: %s" % (si, {k: op[k] for k in ("op", "idx", "len") if k in op}, r[1]))
-                            return res
-                        if had_refusal:
-                            refusal_then_ok = True
-                        for s, ln, off in runs:
-                            for i in range(ln):
-                                definite[s + i] = raw[(off + i) * nb:(off + i + 1) * nb]
-                            last_written = s + ln - 1
-                            file_owner_windows.extend(rfmodel.window(cfg, ms) for ms in stamps_of(cfg, cfg["start"], op))
-                    else:
-                        had_refusal = True
-                        if r[0] == "ok":
-                            fail("conflicting-write-accepted", "step %d %r returned %r although a finalized file of an earlier session covers it" % (
-                                si, {k: op[k] for k in ("op", "idx", "len") if k in op}, r[1]))
-                            return res
-                        s, ln, off = runs[0]
-                        last_written = None  # a refused call finalizes the file that was open
-                        for i in range(min(st_.get("prefix", 0), ln)):
-                            maybe[s + i] = raw[(off + i) * nb:(off + i + 1) * nb]
-                        if st_.get("prefix", 0):
-                            file_owner_windows.extend(rfmodel.window(cfg, ms) for ms in stamps_of(cfg, cfg["start"], dict(op, len=st_["prefix"])))
-                elif kind == "read":
-                    # samples of the file the open session is still writing sit in a tmp. file (not visible yet)
-                    open_win = None
-                    if w is not None and last_written is not None:
-                        open_win = rfmodel.window(cfg0, rfmodel.file_ms(cfg0, last_written))
-                    _read_check(cfg0, tops, definite, maybe, file_owner_windows, fail, si, open_win)
-                # finalized files never change
-                now = final_hashes(tops)
-                for p, h in hashes.items():
-                    if p not in now:
-                        fail("finalized-file-disappeared", "step %d %s: %s" % (si, kind, os.path.relpath(p, base)))
-                    elif now[p] != h:
-                        fail("finalized-file-changed", "step %d %s: %s" % (si, kind, os.path.relpath(p, base)))
-                hashes.update({p: h for p, h in now.items() if p not in hashes})
-                if res.failures:
-                    return res
+                w = None
+            now = final_hashes(tops)
+            for p, h in hashes.items():
+                if p not in now:
+                    fail("finalized-file-disappeared", "after the stopped history was closed: %s" % os.path.relpath(p, base))
+                elif now[p] != h:
+                    fail("finalized-file-changed", "after the stopped history was closed: %s" % os.path.relpath(p, base))
+            _read_check(cfg0, tops, definite, maybe, file_owner_windows, fail, len(case["steps"]), None, values_only=True)
+          if on_tree is not None and w is None:
+            on_tree(tops, cfg0, fail)
         finally:
             if w is not None:
                 with rfharness.quiet_fds():
                     w.close()
+    if keep is not None:
+        res.failures = [f for f in res.failures if f[0].startswith(tuple(keep))]
     res.nontrivial = restart_inside or refusal_then_ok
     if restart_inside:
         res.cls("restart-inside-or-before")
@@ -358,10 +442,12 @@ def run_case(case):
         res.cls("mismatch")
     if any(s.get("retry") for s in case["steps"]):
         res.cls("retry")
+    if any(s["s"] == "write" and s["op"].get("cross") and s["expect"] == "ok" for s in case["steps"]):
+        res.cls("enters-existing-subdir-at-free-period")
     return res
 
 
-def _read_check(cfg, tops, definite, maybe, windows, fail, si, open_win=None):
+def _read_check(cfg, tops, definite, maybe, windows, fail, si, open_win=None, values_only=False):
     drf = rfharness.drf()
     usable = [t for t in tops if os.path.exists(os.path.join(t, "ch0", "drf_properties.h5"))]
     if not usable or not definite:
@@ -380,6 +466,29 @@ def _read_check(cfg, tops, definite, maybe, windows, fail, si, open_win=None):
         end = hi + spf + 2
         with rfharness.quiet_fds():
             blocks = rd.get_continuous_blocks(a, end, "ch0")
+        # the union reads back as ONE channel: blocks in index order, disjoint and maximal whichever directory holds them
+        bl = [(int(k), int(ln)) for k, ln in blocks.items()]
+        for (k0, l0), (k1, l1) in zip(bl, bl[1:]):
+            if k1 <= k0:
+                fail("union-blocks-unsorted", "step %d: get_continuous_blocks returns %r" % (si, bl[:6]))
+                break
+            if k0 + l0 >= k1:
+                fail("union-blocks-not-merged", "step %d: blocks (%d,%d) and (%d,%d) touch or overlap" % (si, k0, l0, k1, l1))
+                break
+        if end - a <= 1 << 16:
+            with rfharness.quiet_fds():
+                whole = rd.read(a, end, "ch0")
+            wl = [(int(k), int(v.shape[0])) for k, v in whole.items()]
+            if wl != bl:
+                fail("union-read-vs-blocks", "step %d: read() blocks %r, get_continuous_blocks %r" % (si, wl[:6], bl[:6]))
+            # a vector read inside a block that spans sessions / files / directories must succeed and agree
+            for k0, l0 in sorted(bl, key=lambda t: -t[1])[:2]:
+                n_ = min(l0, 4 * spf)
+                with rfharness.quiet_fds():
+                    vec = rd.read_vector_raw(k0, n_, "ch0")
+                ref = [v for k, v in whole.items() if int(k) == k0]
+                if ref and np.ascontiguousarray(vec).astype(sd, copy=False).tobytes() != np.ascontiguousarray(ref[0][:n_]).astype(sd, copy=False).tobytes():
+                    fail("union-read-vector-differs", "step %d: read_vector_raw(%d,%d) differs from read()" % (si, k0, n_))
         for k, ln in blocks.items():
             k, ln = int(k), int(ln)
             for c0 in range(k, k + ln, 1 << 18):  # long blocks are read in pieces
@@ -403,13 +512,13 @@ def _read_check(cfg, tops, definite, maybe, windows, fail, si, open_win=None):
                 if v != maybe[k] and not cont_fill:
                     fail("union-read-wrong-value", "step %d: sample %d (prefix of a refused call) has a foreign value" % (si, k))
                     break
-            elif cont_fill and any(lo_ <= k < hi_ for lo_, hi_ in windows):
+            elif values_only or (cont_fill and any(lo_ <= k < hi_ for lo_, hi_ in windows)):
                 continue
             else:
                 fail("union-read-unwritten-sample", "step %d: sample %d returned but never written" % (si, k))
                 break
         b = rd.get_bounds("ch0")
-        if got and open_win is None:
+        if got and open_win is None and not values_only:
             if tuple(int(x) for x in b) != (min(got), max(got)):
                 fail("union-bounds", "step %d: bounds %r but reads span (%d,%d)" % (si, b, min(got), max(got)))
         rd.close()
